@@ -154,10 +154,6 @@ Definition set_port (s : ustate) (a : portarg) : ustate :=
        end.
 
 (* protocol setter (argument already cut at ':' and lower-cased) *)
-Definition set_protocol (s : ustate) (p : zs) : ustate :=
-  if Bool.eqb (is_special (scheme s)) (is_special p) && host_ok p (host s)
-  then s <| scheme := p |> <| host := drop_default_port p (host s) |>
-  else s.
 
 (* host setter: result and whether it throws *)
 Definition set_host (s : ustate) (v : zs) : ustate * bool :=
@@ -166,6 +162,18 @@ Definition set_host (s : ustate) (v : zs) : ustate * bool :=
     match fix_host (scheme s) h1 with
     | Some h2 => (s <| host := h2 |> <| upath := clean_path (upath s) (scheme s) |>, false)
     | None => (s <| host := h1 |> <| upath := clean_path (upath s) (scheme s) |>, true)
+    end
+  else (s, false).
+
+(* protocol setter: the scheme changes only between special and special (or non-special and non-special) and only if the
+   host parses under the new scheme; then the default port of the NEW scheme is dropped and - since fix e9d39f9 - fixURL
+   normalises the host for it (a host stored under file: was neither lower-cased nor punycoded). Result and whether it throws *)
+Definition set_protocol (s : ustate) (p : zs) : ustate * bool :=
+  if Bool.eqb (is_special (scheme s)) (is_special p) && host_ok p (host s) then
+    let h1 := drop_default_port p (host s) in
+    match fix_host p h1 with
+    | Some h2 => (s <| scheme := p |> <| host := h2 |> <| upath := clean_path (upath s) p |>, false)
+    | None => (s <| scheme := p |> <| host := h1 |> <| upath := clean_path (upath s) p |>, true)
     end
   else (s, false).
 
@@ -205,7 +213,7 @@ Definition ustep (s : ustate) (o : uop) : ustate :=
   | OSet n v => mutate s (fun l => set_as_written n v l)
   | OSort => mutate s stable_sort
   | OPort a => set_port s a
-  | OProtocol p => set_protocol s p
+  | OProtocol p => fst (set_protocol s p)
   | OHost v => fst (set_host s v)
   | OHostname v => fst (set_hostname s v)
   | OHash v => s <| fragment := trim_hash v |>
